@@ -47,6 +47,46 @@ claimed = {
    technique='stateless enumeration of ALL interleavings (unbounded preemptions) of k goroutines x r AddRow calls on the real writers under the controlled scheduler with the Go race detector live; flushed index compared with the sequential model',
    text='For both writers and (k,r) up to (3,2),(4,1),(2,3), also with 998/999 pre-inserted rows so that the big writer\'s 1000-row commit falls into the concurrent phase: every interleaving is executed; ids must be exactly 0..n-1 and the flushed index must equal the model of a sequential insertion in id order.',
    note='As C04; 2-4 goroutines instead of 2..32.'),
+'C06': dict(level='fault_enumeration', engine=E4 + ' + ' + E5, ref='§4 C06',
+   technique='exhaustive crash-point enumeration on the real bbolt write path: the file image before every write (plus page-granular torn writes) of every creation history is opened with OpenIndex; same through a self-SIGKILLing `updog create`',
+   text='For every history (in-memory writer via Flush and via WriteToBoltDatabase, big writer; sizes on both sides of the 1000-value / 1000-row batches) every prefix of the sequence of file writes and torn variants of multi-page writes is materialised and must be rejected or answer all probes like the complete index; a real `updog create [-b]` is SIGKILLed before its k-th write for every k.',
+   note='Process death only (no loss of un-synced page cache); all file content changes go through the hooked bbolt write function; bbolt transaction atomicity is exercised, not assumed; one torn-init-write class is a recorded known finding of the bbolt dependency.'),
+ 'C09': dict(level='exploration', engine=E1, ref='§4 C09',
+   technique='bounded-exhaustive enumeration of token strings (<=5/7 tokens), byte strings (<=4/5 symbols), generated sentences and finite families against an independent recogniser of the documented grammar, goroutine accounting under GOMAXPROCS=1',
+   text='Every string of the stated spaces is parsed by the real parser on its own goroutine: termination, accept/reject and the prescribed tree are compared with an independent reference recogniser, and the goroutine count must return to the baseline after every call.',
+   note='Trusts the reference recogniser (written from the EBNF with end-of-input required); inputs beyond the bounds are not covered; leaks/hangs decided by scheduler state, not wall-clock.'),
+ 'C10': dict(level='exploration', engine=E1, ref='§4 C10',
+   technique='bounded-exhaustive enumeration of query trees (depth<=2 arity<=3, depth<=3 arity<=2), value strings and group-by lists through format -> parse -> normalise -> compare',
+   text='Every tree of the stated spaces (single-operand and nested same-operator nodes included), every value string up to length 4/5 over a 6-symbol alphabet and every group-by list of length 0..3 is formatted, parsed back, compared after normalisation, and the re-formatted text checked to be a fixpoint.',
+   note='Precondition of the property: valid identifiers, >=1 operand per AND/OR.'),
+ 'C11': dict(level='exploration', engine=E1 + ' + ' + E2, ref='§4 C11',
+   technique='bounded-exhaustive enumeration of query texts x argument lists x execution sequences through ReplacePlaceholders and through database/sql (direct Query and Prepare paths)',
+   text='All trees (depth 1/2) over leaves with repeated, out-of-order and gapped placeholders x all argument lists of length 0..4 over 5 values: binding equals a reference substitution and leaves the template unchanged; through database/sql every execution (sequences of length 2/3 on one prepared statement) returns the rows of the literal one-shot query, too few arguments give an error.',
+   note='The literal one-shot query through the same driver is the oracle (as the property states); database/sql itself is trusted.'),
+ 'C12': dict(level='exploration', engine=E1, ref='§4 C12',
+   technique='bounded-exhaustive enumeration of datasets x query texts x DSN option combinations, database/sql rows compared with Index.Execute on a copy of the same file',
+   text='85 datasets x 6 option strings x all expressions (depth 1/2) x 16 group-by lists: Columns, ColumnTypes, every row scanned into typed destinations, order, counts and error behaviour must match the library result.',
+   note='The library result is the oracle (checked by C01/C02); texts come from the formatter (checked by C10).'),
+ 'C13': dict(level='exploration', engine=E1 + ' + ' + E5, ref='§4 C13',
+   technique='bounded-exhaustive enumeration of request batches (length 0..2/3 over 8 queries x 4 id patterns) against real `updog server` processes for 3 files x 4 option combinations; library Execute on a file copy as oracle',
+   text='Every batch is sent over loopback gRPC to the real server binary; order, id rule, counts, groups and all-or-nothing error behaviour are compared with the library; protobuf conversion round trip and grpc:// vs file: data source equality are checked for every query.',
+   note='Loopback TCP; valid UTF-8 index strings only.'),
+ 'C14': dict(level='fault_enumeration', engine=E1 + ' + ' + E5, ref='§4 C14',
+   technique='structural enumeration of decodable request messages (every omission at every position to depth 2, nesting to 4990) in-process under recover and over the wire against the real server with a liveness+correctness probe after every request',
+   text='|E(2)|=115 930 expression shapes x request framings in-process; E(1) (quick) / E(2) (thorough) over the wire: the server process must survive every request and answer the following well-formed probe correctly; a dead server is restarted so that all crashing inputs are collected.',
+   note='Random protobuf-valid byte strings are replaced by the structural enumeration.'),
+ 'C15': dict(level='fault_enumeration', engine=E4 + ' + ' + E2, ref='§4 C15',
+   technique='enumeration of damaged-but-valid bbolt files (full product of coarse damages over all parts, every truncation, every byte flip) x open/close histories x option sets, with a non-blocking flock probe as release oracle',
+   text='Every file of the damage space (1 268 quick / 3 026 thorough variants of a valid index, plus nonexistent, empty and non-bbolt files) x 16/32 histories: no panic, error for each listed incompleteness, path not created, file released after every failed open and after Close, Close idempotent.',
+   note='Release is decided by flock(LOCK_EX|LOCK_NB) with GC disabled; a lock wait in a single-threaded history is a hang.'),
+ 'C16': dict(level='exploration', engine=E1 + ' + ' + E2, ref='§4 C16',
+   technique='enumeration of pre-existing contents x writer sizes x {Flush, create, create -b} and of all read-only histories to depth 5/7 with SHA-256/size/mode comparison after every step',
+   text='36 clobber cases must fail and leave the file unchanged; every enabled history over {4 open variants, 4 queries, GetSchema, Close} on a copy of a valid index must leave its bytes unchanged after every step.',
+   note='Runs as root: read-only permission does not by itself protect the file, the byte comparison does the work.'),
+ 'C19': dict(level='exploration', engine=E1 + ' + ' + E5, ref='§4 C19',
+   technique='bounded-exhaustive enumeration of CSV files (6 headers / 30 header pairs x 6 field values x 0..2/3 records) through the real `updog create` in both modes, output compared with the model; malformed inputs and existing outputs',
+   text='Every CSV of the space is ingested by the real binary in normal and --big mode; schema (naming rule), universe, counts, per-column and joint group-by must equal the model derived from what encoding/csv reads; `updog schema` must succeed; malformed input or existing output must fail without touching the output; a command that stops consuming CPU is reported as hung.',
+   note='encoding/csv defines well-formedness; row order is observable only through counting queries.'),
 }
 
 m = {"version": 1,
